@@ -640,7 +640,8 @@ def execute_steps_runs(lab, mon, rng, n):
                       None if context.table is None else [list(r.cells) for r in context.table.rows])
             sub = u"Given k9 sub one\n  \"\"\"\n  inner doc\n  \"\"\"\nWhen k9 sub two\n  | x |\n  | inner |\n"
             if not sub_ok and text.startswith("k2"):
-                sub += u"Then k9 sub fails\n"
+                # a sub-step in the MIDDLE does not pass: the nested execution stops there, "k9 sub late" is never called
+                sub += u"Then k9 sub fails\nAnd k9 sub late\n"
             try:
                 context.execute_steps(sub)
                 ok = True
@@ -657,6 +658,10 @@ def execute_steps_runs(lab, mon, rng, n):
             if ok:
                 mon.check("run.execute_steps_restores_text_table", before == after,
                           lambda: dict(step=text, before=before, after=after))
+        if not sub_ok:
+            called = [c[1] for c in obs.calls]
+            mon.check("run.execute_steps_stops_at_first_failing_substep", "k9 sub fails" in called and "k9 sub late" not in called,
+                      lambda: dict(calls=called))
         mon.check("run.execute_steps_outer_values", seen.get("k1 outer with table", ((None, None),))[0][1] == [["outer%d" % i]] and
                   seen.get("k2 outer with doc", ((None, None),))[0][0] == "outer text %d" % i, lambda: dict(seen={k: v[0] for k, v in seen.items()}))
 
@@ -704,7 +709,7 @@ def run(spec, mon):
         gen = {"outcomes": outs, "p_nonpass": 0.2, "p_tag": 0.4, "max_features": 2, "p_stepless": 0.0, "p_empty_examples": 0.0}
         case = RB.gen_case(rng, gen=gen, p_stop=0.2, p_dry=0.0, p_noskipped=0.2)
         real_run(lab, mon, rng, case, sample=(i == 0 and shard == 0))
-    execute_steps_runs(lab, mon, rng, 3 if tier == "quick" else 100)
+    execute_steps_runs(lab, mon, rng, 8 if tier == "quick" else 100)
     two_runs_on_one_runner(lab, mon, rng, 4 if tier == "quick" else 150)
     if shard == 0:
         cleanup_error_then_skip(lab, mon, rng, 4)
